@@ -141,6 +141,7 @@ package expressions
 // an error is returned iff there is no closing quote.
 //@ func (*ParserT).parseString [C09]
 //@   check none
+//@   inst old(tree.charPos) + 1
 //@   requires tree != nil && 0 <= tree.charPos
 //@   loop 1 invariant imp(qStart == '\'' && qEnd == '\'' && exec, old(tree.charPos) + 1 <= tree.charPos && tree.expression == old(tree.expression) && fresh(value))
 //@   loop 1 invariant imp(qStart == '\'' && qEnd == '\'' && exec, len(value) == tree.charPos - old(tree.charPos) - 1)
@@ -169,4 +170,4 @@ package expressions
 //@   loop 1 step imp(old(tree.expression[tree.charPos]) != '$' && old(tree.expression[tree.charPos]) != '~' && !(old(tree.expression[tree.charPos]) == '(' && qEnd == ')'), len(value) == old(len(value)) + ite(!old(escaped) && old(tree.expression[tree.charPos]) == '\\' && qEnd != ')', 0, 1))
 //@   loop 1 step imp(old(tree.expression[tree.charPos]) != '$' && old(tree.expression[tree.charPos]) != '~' && !(old(tree.expression[tree.charPos]) == '(' && qEnd == ')') && len(value) == old(len(value)) + 1, value[len(value)-1] == ite(old(escaped), $unesc(old(tree.expression[tree.charPos])), old(tree.expression[tree.charPos])))
 //@   loop 1 step imp(old(tree.expression[tree.charPos]) != '$' && old(tree.expression[tree.charPos]) != '~' && !(old(tree.expression[tree.charPos]) == '(' && qEnd == ')'), forall(j, 0, old(len(value)), value[j] == old(value[j])))
-//@   loop 1 step imp(old(tree.expression[tree.charPos]) != '$' && old(tree.expression[tree.charPos]) != '~' && !(old(tree.expression[tree.charPos]) == '(' && qEnd == ')'), old(escaped) || old(tree.expression[tree.charPos]) != qEnd)
+//@   loop 1 step imp(old(tree.expression[tree.charPos]) != '$' && old(tree.expression[tree.charPos]) != '~' && !(old(tree.expression[tree.charPos]) == '(' && qEnd == ')') && (qEnd == '"' || qEnd == ')'), old(escaped) || old(tree.expression[tree.charPos]) != qEnd)
